@@ -481,6 +481,15 @@ def gt_pop(ctx: Ctx) -> RuleResult:
         if not ok:
             r.violate(f"DiGraphEx.from_exec_nodes: table '{t}' not filled", fe.loc(loop),
                       f"the per-node table '{t}' is not written for the nodes added", None)
+    # the tag table holds a LIST of tags per node (membership on a bare string would be substring matching)
+    for w in written.get("tag", []):
+        v = w.value
+        okl = isinstance(v, (ast.List, ast.ListComp)) or (isinstance(v, ast.Call) and dotted(v.func) == "list")
+        r.ob(okl, {"tag table entry": norm_src(v)})
+        if not okl:
+            r.violate("DiGraphEx.from_exec_nodes: a node's tags are stored as a bare value, not as a list of tags", fe.loc(w),
+                      "tag lookup tests 'tag in tags': on a bare string that is substring matching, so an alias that is contained in "
+                      "another node's tag (or id) selects that other node", norm_src(w))
     # own priority is what seeds the compound table
     cp = written.get("compound_priority", [])
     if cp:
@@ -509,6 +518,18 @@ def gt_pop(ctx: Ctx) -> RuleResult:
     if not ok:
         r.violate("DiGraphEx.from_exec_nodes: compound priorities not computed on every path", fe.loc(),
                   "the graph is returned with own priorities only", None)
+    # the computation is not idempotent (it reads own priorities from the table it overwrites): it may run only once per
+    # freshly seeded table, i.e. only from from_exec_nodes
+    acp = g.methods.get("assign_compound_priority")
+    if acp is not None:
+        for f2, call in ctx.callers_of(acp.qualname):
+            okc = f2.qualname == fe.qualname
+            r.ob(okc, {"assign_compound_priority called from": f2.short})
+            if not okc:
+                r.violate(f"{f2.short}: assign_compound_priority called outside from_exec_nodes", f2.loc(call),
+                          "the computation reads each node's OWN priority from the table it then overwrites with the compound value; on a "
+                          "table that already holds compound values (e.g. one shared with the DAG's graph) it compounds a second time, "
+                          "in place, for every later run", norm_src(call))
     return r
 
 
